@@ -212,7 +212,10 @@ Record scion_view := {
   sv_last : Z;               (* decoded[len-1]: 0 = SCION/UDP, 1 = SCMP, 2 = anything else *)
   sv_len_ok : bool;          (* len(buf) >= udpLayer.Length *)
   sv_src_ia : Z; sv_dst_ia : Z;
-  sv_src_host : option Z;    (* RawSrcAddr as an unmapped IP address; None: not an IP address *)
+  sv_src_host : option Z;    (* RawSrcAddr as an unmapped IPv4 address, if SrcAddrType says IPv4 or IPv6 host (T4Ip,
+                                T16Ip); None: a service address or another address type, bytes that are no IP
+                                address, an IPv6 address that is not IPv4-mapped (the queried server and the
+                                client have IPv4 addresses here) *)
   sv_dst_host : option Z;
   sv_e2e : bool;             (* len(decoded) >= 3 and decoded[len-2] is the end-to-end extension *)
   sv_tsopt : option Z;       (* timestamp option that parses: replaces cRxTime *)
